@@ -453,7 +453,15 @@ func main() {
 	n := flag.Int("n", 40, "number of scripts")
 	par := flag.Int("par", 8, "scripts run concurrently")
 	one := flag.Int("one", -1, "replay: only this case id")
+	respIface := flag.String("respond", "", "responder mode: interface to listen on")
+	respIP := flag.String("ip", "", "responder mode: answer the ARP request for this address")
+	respAfter := flag.Duration("after", 200*time.Millisecond, "responder mode: answer this long after the request")
+	respTotal := flag.Duration("total", 20*time.Second, "responder mode: overall timeout")
 	flag.Parse()
+	if *respIface != "" {
+		respond(*out, *respIface, *respIP, *respAfter, *respTotal)
+		return
+	}
 	w := hlib.NewOut(*out)
 	defer w.Close()
 	rows := make([]row, *n)
